@@ -1,5 +1,10 @@
 """Per-property claims registered in MANIFEST.json."""
-from .manifest import reg
+PROPS = {}  # id -> dict(text, note, technique, design_ref, category)
+
+
+def reg(pid, text, note, technique, design_ref, category="proof"):
+    PROPS[pid] = dict(text=text, note=note, technique=technique, design_ref=design_ref, category=category)
+
 
 HOOK_COMMITS = ["f8dcf9d"]
 NOTES = ("Technique family: machine-checked proof in Lean 4 of a hand-written model, tied to /repo on every run by a "
